@@ -9,7 +9,7 @@ ANCHOR_FILES = ["aw_datastore/datastore.py", "aw_datastore/storages/memory.py", 
                 "aw_datastore/storages/peewee.py"]
 REQUIRED_COUNTERS = ["reads.memory", "reads.sqlite", "reads.peewee", "counts_checked", "clipped_events_checked"]
 TAU = 2000  # µs: "only events within about 2 ms of an edge may go either way"
-RULE = ("per case one store and one bucket (in 60 % of the cases next to a second bucket with a look-alike id that holds events at the very same instants) holding 1-12 events (overlapping, nested, adjacent, identical, zero-length, "
+RULE = ("per case one store and one bucket (3 % of the cases around the Unix epoch, events and windows before it included; in 60 % of the cases next to a second bucket with a look-alike id that holds events at the very same instants) holding 1-12 events (overlapping, nested, adjacent, identical, zero-length, "
         "up to exactly 24 h long, events reaching a window from ~24 h before it) and ~25 windows (open on either "
         "side, zero-width, sub-millisecond, edges exactly on / 1 µs / 1 ms / 3 ms around event starts and ends, "
         "independent UTC offsets on both edges) × limits {-1, 0, 1, 2, n, n+1}; each window is read and counted; up to three "
@@ -30,6 +30,10 @@ def gen_case(rng, ctx):
     backend = BACKENDS[rng.randrange(3)]
     unit = rng.choice([1000, 1000, 10**6, 60 * 10**6, 3600 * 10**6])
     base = floor_ms(rand_instant(rng, 10**12, MAX_US - 40 * DAY_US))
+    if rng.random() < 0.03:
+        # the first hours of 1970 as clocks east of Greenwich show them: instants just before the Unix epoch
+        base = floor_ms(-rng.randrange(0, 14 * 3600 * 10**6))
+        unit = rng.choice([1000, 10**6, 60 * 10**6, 3600 * 10**6])
     n = rng.randrange(1, 13)
     evs = []
     for i in range(n):
